@@ -21,6 +21,7 @@ import (
 	"context"
 	"crypto/sha256"
 	"encoding/binary"
+	"errors"
 	"fmt"
 	"io"
 	"math/bits"
@@ -287,6 +288,7 @@ type fileC17 struct {
 	short, zero, afterEOF  int
 	eofWithDataHappened    bool
 	closed                 bool
+	failAt                 int // >= 0: Read fails once this offset is reached
 	readAfterClose, reads  int
 }
 
@@ -294,6 +296,9 @@ func (f *fileC17) Read(p []byte) (int, error) {
 	f.reads++
 	if f.closed {
 		f.readAfterClose++
+	}
+	if f.failAt >= 0 && f.off >= f.failAt {
+		return 0, errInjectedC17
 	}
 	if f.off >= len(f.data) {
 		f.afterEOF++
@@ -306,6 +311,9 @@ func (f *fileC17) Read(p []byte) (int, error) {
 		return 0, nil
 	}
 	n := min(k, len(p), len(f.data)-f.off)
+	if f.failAt >= 0 {
+		n = min(n, f.failAt-f.off)
+	}
 	copy(p, f.data[f.off:f.off+n])
 	f.off += n
 	if n < len(p) {
@@ -317,6 +325,8 @@ func (f *fileC17) Read(p []byte) (int, error) {
 	}
 	return n, nil
 }
+
+var errInjectedC17 = errors.New("injected read error")
 
 func (f *fileC17) MakeReadable() error                 { return nil }
 func (f *fileC17) Close() error                        { f.closed = true; return nil }
@@ -629,6 +639,7 @@ type fileSpecC17 struct {
 	PatKind string
 	RepeatOf int // index of an earlier file with the same content, -1 otherwise
 	EditOf   int // index of the earlier unedited file this one is an edited copy of, -1 otherwise
+	FailAt   int // >= 0: the source fails at this offset; the worker's state stays behind dirty
 }
 
 type resultC17 struct {
@@ -648,17 +659,23 @@ func TestVerifC17Chunking(t *testing.T) {
 		var specs []fileSpecC17
 		total := 0
 		for i := 0; i < nfiles; i++ {
-			sp := fileSpecC17{RepeatOf: -1, EditOf: -1}
+			sp := fileSpecC17{RepeatOf: -1, EditOf: -1, FailAt: -1}
 			mode := rapid.IntRange(0, 9).Draw(rt, "mode")
+			var eligible []int // earlier files that were saved (no injected read error)
+			for j := range specs {
+				if specs[j].FailAt < 0 {
+					eligible = append(eligible, j)
+				}
+			}
 			switch {
-			case i > 0 && mode < 2: // the same content again, other read pattern, later in the worker's life
-				sp.RepeatOf = rapid.IntRange(0, i-1).Draw(rt, "base")
+			case len(eligible) > 0 && mode < 2: // the same content again, other read pattern, later in the worker's life
+				sp.RepeatOf = eligible[rapid.IntRange(0, len(eligible)-1).Draw(rt, "base")]
 				sp.Recipe = specs[sp.RepeatOf].Recipe
 				sp.EditOf = specs[sp.RepeatOf].EditOf
-			case i > 0 && mode < 5: // an edited copy of an earlier (unedited) file
-				b := rapid.IntRange(0, i-1).Draw(rt, "base")
+			case len(eligible) > 0 && mode < 5: // an edited copy of an earlier (unedited) file
+				b := eligible[rapid.IntRange(0, len(eligible)-1).Draw(rt, "base")]
 				if rapid.Bool().Draw(rt, "largestbase") { // prefer a base with several chunks
-					for j := range specs {
+					for _, j := range eligible {
 						if specs[j].Recipe.baseSize() > specs[b].Recipe.baseSize() {
 							b = j
 						}
@@ -679,6 +696,9 @@ func TestVerifC17Chunking(t *testing.T) {
 			}
 			total += size
 			sp.Pat, sp.PatKind = genPatternC17(rt, size)
+			if sp.RepeatOf < 0 && sp.EditOf < 0 && i < nfiles-1 && rapid.IntRange(0, 7).Draw(rt, "readerror") == 0 {
+				sp.FailAt = rapid.OneOf(rapid.IntRange(0, size), rapid.SampledFrom([]int{0, size, size / 2, min(size, bufSizeC17), min(size, minSizeC17+1)})).Draw(rt, "failat")
+			}
 			specs = append(specs, sp)
 		}
 
@@ -692,8 +712,16 @@ func TestVerifC17Chunking(t *testing.T) {
 		}
 		for i, sp := range specs {
 			content := sp.Recipe.build()
-			f := &fileC17{data: content, pat: sp.Pat}
+			f := &fileC17{data: content, pat: sp.Pat, failAt: sp.FailAt}
 			ends, _, err := se.chunk(f)
+			if sp.FailAt >= 0 {
+				// a source that fails must not be reported as saved; what matters here is the next file
+				if err == nil || !errors.Is(err, errInjectedC17) {
+					fail(i, "the source failed at offset %d but saving reported: %v", sp.FailAt, err)
+				}
+				st.Case("", "read-error-file")
+				continue
+			}
 			if err != nil {
 				fail(i, "lossless: %v", err)
 			}
@@ -779,6 +807,9 @@ func TestVerifC17Chunking(t *testing.T) {
 			}
 			if i > 0 {
 				classes = append(classes, "worker-reused")
+				if specs[i-1].FailAt >= 0 {
+					classes = append(classes, "worker-reused-after-read-error")
+				}
 			}
 			if len(content)%bufSizeC17 == 0 && len(content) > 0 {
 				classes = append(classes, "size-multiple-of-buffer")
